@@ -131,15 +131,23 @@ func (a *Async) probeInadmissible() {
 			} else {
 				tx = w.NewTx(false)
 			}
+			// requested = named by the proposal the node holds (by the payload the harness delivered, not by the
+			// library's own list of missing transactions)
 			req := false
-			for _, m := range d.MissingTransactions {
-				if m == tx.Hash() {
-					req = true
+			if pp := d.PreparationPayloads[d.PrimaryIndex]; pp != nil && pp.Type() == dbft.PrepareRequestType {
+				for _, m := range pp.GetPrepareRequest().TransactionHashes() {
+					if m == tx.Hash() {
+						req = true
+					}
 				}
 			}
 			if !req {
 				break
 			}
+		}
+		if a.pct("zerotx", 15) {
+			tx = vt.ZeroTx // its hash is the zero value of the hash type
+			w.Stat("probe_zero_hash_transaction")
 		}
 		class = "unrequested-transaction"
 		call = func() { n.Transaction(tx) }
